@@ -157,7 +157,7 @@ def spec_step(strat, rule):
             cmds[cid] = add(gc, cid, avg)
             cs.current_power += avg
         elif (surplus < -eps and v.desired_soc - v.battery.soc < -eps and v.vehicle_type.v2g
-              and gc.current_loads.get(cid, 0) < eps and not cheap[cs.parent]):
+              and abs(gc.current_loads.get(cid, 0)) < eps and not cheap[cs.parent]):
             p = min(-surplus, v.battery.unloading_curve.max_power, cs.max_power)
             avg = v.battery.unload(dt, max_power=p, target_soc=max(v.desired_soc, v.vehicle_type.discharge_limit))[
                 "avg_power"]
